@@ -304,14 +304,27 @@ def catalogue():
 
 
 # --------------------------------------------------------------------------- fit / observe
+def _own(v):
+    """A private copy of caller data: an estimator configured with copy_X=False may legitimately overwrite it."""
+    numpy = _np()
+    if isinstance(v, numpy.ndarray):
+        return numpy.array(v, copy=True)
+    if hasattr(v, "copy") and hasattr(v, "columns"):
+        return v.copy(deep=True)
+    if isinstance(v, list):
+        return list(v)
+    return v
+
+
 def fit(est, kind, dat, w=None):
+    X, y = _own(dat.get("X")), _own(dat.get("y"))
     if kind == "ts":
-        return est.fit(dat["X"], dat["y"])
+        return est.fit(X, y)
     if "y" in dat:
         if w is not None:
-            return est.fit(dat["X"], dat["y"], sample_weight=w)
-        return est.fit(dat["X"], dat["y"])
-    return est.fit(dat["X"])
+            return est.fit(X, y, sample_weight=_own(w))
+        return est.fit(X, y)
+    return est.fit(X)
 
 
 def observe(est, kind, dat, P=None):
